@@ -20,6 +20,7 @@ var ghostBuiltins = map[string]bool{
 	"implies": true, "iff": true, "forall": true, "exists": true, "old": true, "has": true,
 	"lo": true, "hi": true, "at": true, "held": true, "typeIs": true, "gint": true, "allocated": true,
 	"sameArray": true, "refOf": true, "nonNil": true, "dynRef": true, "before": true,
+	"glen": true, "gentry": true, "gfield": true, "gfieldS": true, "mulGE": true,
 }
 
 func (x *Exec) isGhostBuiltin(fn *ssa.Function) bool {
@@ -175,19 +176,39 @@ func (x *Exec) havocAll(st *State) {
 	x.genTop[st.gen] = top
 }
 
-// uninterpreted ghost function: one SMT function symbol per Go function.
+// uninterpreted ghost function: one SMT function symbol per Go function. Slice arguments are
+// passed by content (backing array value, offset, length), so the function depends on the element
+// sequence only; all other arguments are passed by their leaves (pointers by reference).
 func (x *Exec) uninterpreted(fn *ssa.Function, args []*Val) *Val {
-	name := "uf_" + sanitize(fn.Name())
 	var argTerms []string
 	var argSorts []string
+	I := x.sc.intSort()
 	for i, a := range args {
+		pt := fn.Signature.Params().At(i).Type()
+		if a.K == KSlice {
+			et := x.sliceElem(pt)
+			for _, l := range x.leaves(et) {
+				key := "E|" + typeKey(et) + "|" + l.Path
+				h := x.heapSym(x.cur, key, x.eInfo(l))
+				argTerms = append(argTerms, sel(x.use(h), a.E[0].S))
+				argSorts = append(argSorts, "(Array "+I+" "+l.Sort+")")
+			}
+			argTerms = append(argTerms, a.E[1].S, a.E[2].S)
+			argSorts = append(argSorts, I, I)
+			continue
+		}
 		ts := x.flatten(x.cur, a)
-		ls := x.leaves(fn.Signature.Params().At(i).Type())
+		ls := x.leaves(pt)
 		for j, t := range ts {
 			argTerms = append(argTerms, t)
 			argSorts = append(argSorts, ls[j].Sort)
 		}
 	}
+	return x.ufApply(fn, argTerms, argSorts)
+}
+
+func (x *Exec) ufApply(fn *ssa.Function, argTerms, argSorts []string) *Val {
+	name := "uf_" + sanitize(fn.Name())
 	rt := fn.Signature.Results().At(0).Type()
 	rls := x.leaves(rt)
 	ts := make([]string, len(rls))
@@ -208,6 +229,38 @@ func (x *Exec) uninterpreted(fn *ssa.Function, args []*Val) *Val {
 	}
 	v, _ := x.unflatten(rt, ts)
 	return v
+}
+
+// contentLemma: after copying n elements so that dst[doff, doff+n) equals src[soff, soff+n), every
+// ghost function of one slice argument (a function of the element sequence by definition) agrees
+// on the two sequences.
+func (x *Exec) contentLemma(et types.Type, newD map[string]string, srcA map[string]string, doff, soff, n string) {
+	I := x.sc.intSort()
+	for name := range x.P.ghost {
+		fn := x.P.spkg.Func(name)
+		if fn == nil || fn.Signature.Params().Len() != 1 {
+			continue
+		}
+		sl, ok := fn.Signature.Params().At(0).Type().Underlying().(*types.Slice)
+		if !ok || !types.Identical(sl.Elem(), et) {
+			continue
+		}
+		var a1, a2, sorts []string
+		for _, l := range x.leaves(et) {
+			a1 = append(a1, newD[l.Path])
+			a2 = append(a2, srcA[l.Path])
+			sorts = append(sorts, "(Array "+I+" "+l.Sort+")")
+		}
+		a1 = append(a1, doff, n)
+		a2 = append(a2, soff, n)
+		sorts = append(sorts, I, I)
+		v1 := x.ufApply(fn, a1, sorts)
+		v2 := x.ufApply(fn, a2, sorts)
+		f1, f2 := x.flatten(x.cur, v1), x.flatten(x.cur, v2)
+		for k := range f1 {
+			x.sc.assume(eq(f1[k], f2[k]))
+		}
+	}
 }
 
 // ---- ghost built-ins ----
@@ -308,6 +361,49 @@ func (x *Exec) ghost(name string, fn *ssa.Function, args []*Val, st *State, pos 
 		nm := x.strOf(args[0].S)
 		h := x.heapSym(st, "G|"+nm, compInfo{sort: "Int"})
 		return scalar(types.Typ[types.Int], x.intAsGo(x.use(h)), I)
+	case "glen":
+		nk, _ := x.logKeys(x.strOf(args[0].S))
+		return scalar(types.Typ[types.Int], x.intAsGo(x.use(x.heapSym(st, nk, x.keyInfo[nk]))), I)
+	case "gentry":
+		_, ek := x.logKeys(x.strOf(args[0].S))
+		idx := args[1].S
+		if x.sc.bvMode {
+			x.sc.bridge[64] = true
+			idx = "(nat64 " + idx + ")"
+		}
+		return scalar(types.Typ[types.Int], x.intAsGo(sel(x.use(x.heapSym(st, ek, x.keyInfo[ek])), idx)), I)
+	case "gfield", "gfieldS":
+		fname := "gf_" + sanitize(x.strOf(args[0].S))
+		srt := bvSort(64)
+		var rt types.Type = types.Typ[types.Uint64]
+		if name == "gfieldS" {
+			srt = "Str"
+			rt = types.Typ[types.String]
+		}
+		if !x.sc.decl[fname] {
+			x.sc.decl[fname] = true
+			x.sc.ufDecls = append(x.sc.ufDecls, fmt.Sprintf("(declare-fun %s (Int) %s)", fname, srt))
+		}
+		e := args[1].S
+		if x.sc.bvMode {
+			x.sc.bridge[64] = true
+			e = "(nat64 " + e + ")"
+		}
+		return scalar(rt, "("+fname+" "+e+")", srt)
+	case "mulGE":
+		// a*ka >= b*c*kbc over the naturals
+		n := func(v *Val) string {
+			if lit, ok := isLit(v.S); ok {
+				return fmt.Sprint(lit)
+			}
+			x.sc.bridge[64] = true
+			t := "(nat64 " + v.S + ")"
+			x.bridgeLemmas(v.S, bvSort(64), t, "Int", false)
+			return t
+		}
+		x.sc.bridge[-1] = true // natmul
+		bc := "(natmul " + n(args[2]) + " " + n(args[3]) + ")"
+		return scalar(boolT, "(>= (* "+n(args[0])+" "+n(args[1])+") (* "+bc+" "+n(args[4])+"))", "Bool")
 	case "allocated":
 		// the object existed when the function under verification was entered
 		p := args[0]
@@ -387,11 +483,9 @@ func (x *Exec) contractCall(fn *ssa.Function, key string, ctr *Contract, args []
 	case ctr.Pure:
 	case ctr.ModAll:
 		x.havocAll(st)
-	case len(ctr.Modifies) > 0 || ctr.Trusted && (fn == nil || len(fn.Blocks) == 0 || ctr.Ext):
+	case len(ctr.Modifies) > 0 || ctr.Trusted || fn == nil || len(fn.Blocks) == 0 || ctr.Ext:
 		for _, m := range ctr.Modifies {
-			for _, k := range x.modifiesKeys(m) {
-				x.havocKey(st, k, x.compInfoOfKey(k))
-			}
+			x.havocKeys(st, x.modifiesKeys(m))
 		}
 		if len(ctr.Modifies) > 0 {
 			x.bumpTop(st)
@@ -401,11 +495,12 @@ func (x *Exec) contractCall(fn *ssa.Function, key string, ctr *Contract, args []
 		if ws.all {
 			x.havocAll(st)
 		} else {
-			for _, k := range ws.sortedKeys() {
-				x.havocKey(st, k, x.compInfoOfKey(k))
-			}
 			x.bumpTop(st)
+			x.havocKeys(st, ws.sortedKeys())
 		}
+	}
+	for _, lg := range ctr.Appends {
+		x.appendLog(st, lg)
 	}
 	if ctr.NoReturn {
 		x.oblige(st, "unreach", "", "call of "+shortKey(x.P, key), "false", pos)
@@ -437,6 +532,7 @@ func (x *Exec) contractCall(fn *ssa.Function, key string, ctr *Contract, args []
 }
 
 func (x *Exec) bumpTop(st *State) {
+	x.prevTop = st.allocTop
 	top := x.sc.declare("top", "Int")
 	x.sc.assume("(>= " + top + " " + st.allocTop + ")")
 	st.allocTop = top
@@ -830,6 +926,12 @@ func (x *Exec) copyOp(st *State, d, s *Val, dt types.Type, pos token.Pos) *Val {
 		sl = "(strlen " + s.S + ")"
 	}
 	n := x.sc.define("ncopy", I, ite(x.sc.iLt(d.E[2].S, sl), d.E[2].S, sl))
+	newD, srcA := map[string]string{}, map[string]string{}
+	defer func() {
+		if s.K == KSlice && x.sc.binder == 0 {
+			x.contentLemma(et, newD, srcA, d.E[1].S, s.E[1].S, n)
+		}
+	}()
 	for _, l := range x.leaves(et) {
 		key := "E|" + typeKey(et) + "|" + l.Path
 		ci := x.eInfo(l)
@@ -839,6 +941,7 @@ func (x *Exec) copyOp(st *State, d, s *Val, dt types.Type, pos token.Pos) *Val {
 		var nd string
 		if s.K == KSlice {
 			nd = x.rangeCopy(D, sel(E, s.E[0].S), d.E[1].S, s.E[1].S, n, l.Sort)
+			newD[l.Path], srcA[l.Path] = nd, x.sc.define("srcarr", "(Array "+I+" "+l.Sort+")", sel(E, s.E[0].S))
 		} else {
 			sa := x.sc.declare("strarr", "(Array "+I+" "+l.Sort+")")
 			x.sc.emit("(assert (forall ((i %s)) (! (= (select %s i) (strbyte %s i)) :pattern ((select %s i)))))", I, sa, s.S, sa)
@@ -847,4 +950,60 @@ func (x *Exec) copyOp(st *State, d, s *Val, dt types.Type, pos token.Pos) *Val {
 		x.setHeap(st, key, ci, sto(E, d.E[0].S, nd))
 	}
 	return scalar(types.Typ[types.Int], n, I)
+}
+
+// ---- ghost logs ----
+//
+// A ghost log NAME is a counter and an array of entry identifiers. Entries are immutable objects
+// with fresh identifiers; their fields are functions of the identifier (gfield). Logs are
+// append-only: whenever the engine has to forget a log (loop or call havoc) it keeps the entries
+// below the old length and knows that later identifiers are fresh.
+func (x *Exec) logKeys(name string) (string, string) {
+	nk, ek := "G|log:"+name+".n", "G|log:"+name+".e"
+	x.keyInfo[nk] = compInfo{sort: "Int"}
+	x.keyInfo[ek] = compInfo{sort: "(Array Int Int)"}
+	return nk, ek
+}
+
+// appendLog: exactly one new entry with a fresh identifier.
+func (x *Exec) appendLog(st *State, name string) {
+	nk, ek := x.logKeys(name)
+	n := x.use(x.heapSym(st, nk, x.keyInfo[nk]))
+	e := x.use(x.heapSym(st, ek, x.keyInfo[ek]))
+	x.sc.assume("(>= " + n + " 0)")
+	id := x.alloc(st)
+	x.setHeap(st, ek, x.keyInfo[ek], sto(e, n, id))
+	x.setHeap(st, nk, x.keyInfo[nk], "(+ "+n+" 1)")
+}
+
+// havocKeys havocs components; ghost logs keep their append-only shape.
+func (x *Exec) havocKeys(st *State, keys []string) {
+	for _, k := range keys {
+		if strings.HasPrefix(k, "G|log:") {
+			if strings.HasSuffix(k, ".e") {
+				continue // handled with its counter
+			}
+			name := strings.TrimSuffix(strings.TrimPrefix(k, "G|log:"), ".n")
+			nk, ek := x.logKeys(name)
+			n0 := x.use(x.heapSym(st, nk, x.keyInfo[nk]))
+			e0 := x.use(x.heapSym(st, ek, x.keyInfo[ek]))
+			x.havocKey(st, nk, x.keyInfo[nk])
+			x.havocKey(st, ek, x.keyInfo[ek])
+			n1 := x.use(st.heap[nk])
+			e1 := x.use(st.heap[ek])
+			x.sc.assume("(>= " + n0 + " 0)")
+			x.sc.assume("(>= " + n1 + " " + n0 + ")")
+			x.sc.emit("(assert (forall ((k Int)) (! (=> (< k %s) (= (select %s k) (select %s k))) :pattern ((select %s k)))))", n0, e1, e0, e1)
+			x.sc.emit("(assert (forall ((k Int)) (! (=> (and (<= %s k) (< k %s)) (and (> (select %s k) %s) (<= (select %s k) %s))) :pattern ((select %s k)))))", n0, n1, e1, x.logTopBefore(st), e1, st.allocTop, e1)
+			continue
+		}
+		x.havocKey(st, k, x.compInfoOfKey(k))
+	}
+}
+
+func (x *Exec) logTopBefore(st *State) string {
+	if x.prevTop != "" {
+		return x.prevTop
+	}
+	return x.top0
 }
